@@ -69,4 +69,135 @@ theorem get_data_trim_eq (a : Wrap.Arr α) (rows cols S T V : Nat) :
   by_cases hV : V = 1 <;> by_cases hT : T = 1 <;>
     simp [Py.get_data_trim, Wrap.stackTrim, hV, hT, pure, Except.pure]
 
+/-! ### the thorough check of `_chk_order` -/
+
+/-- a `for` loop whose body either raises `e0` (exactly when `P x` fails) or goes on with some new
+    state: the loop raises `e0` iff some element fails `P`, and otherwise ends in some state -/
+theorem forIn_guard {β σ : Type} (e0 : PyErr) (P : β → Bool)
+    (f : β → σ → Except PyErr (ForInStep σ))
+    (hf : ∀ x s, (P x = true ∧ ∃ s', f x s = .ok (ForInStep.yield s')) ∨ (P x = false ∧ f x s = .error e0)) :
+    ∀ (l : List β) (s : σ),
+      (l.all P = true ∧ ∃ s', forIn l s f = .ok s') ∨ (l.all P = false ∧ forIn l s f = .error e0)
+  | [], s => Or.inl ⟨rfl, s, rfl⟩
+  | x :: xs, s => by
+    rw [List.forIn_cons]
+    rcases hf x s with ⟨hp, s', hs⟩ | ⟨hp, hs⟩
+    · rw [hs]
+      rcases forIn_guard e0 P f hf xs s' with ⟨ha, s'', h⟩ | ⟨ha, h⟩
+      · exact Or.inl ⟨by simp [hp, ha], s'', by simpa [bind, Except.bind] using h⟩
+      · exact Or.inr ⟨by simp [hp, ha], by simpa [bind, Except.bind] using h⟩
+    · rw [hs]
+      exact Or.inr ⟨by simp [hp], rfl⟩
+
+/-- the condition the triple loop of `_chk_order` tests at (vector `v`, time `t`, slice `s`) -/
+def cellOk (files : List (Int × Int × Int)) (pos : List Int) (S T : Nat) (v t s : Nat) : Bool :=
+  (files[v * T * S + t * S + s]!).1 == (files[v * T * S]!).1 &&
+  (files[v * T * S + t * S + s]!).2.2 == pos[s]!
+
+/-- **the thorough check of `_chk_order` as written in dcmstack.py passes iff every cell of the grid
+    holds the right file**: at (vector `v`, time `t`, slice `s`) of the sorted list the vector ordinate is
+    that of the block's first file and the slice position is the `s`-th distinct position; otherwise
+    it raises InvalidStackError — for every S, T, V -/
+theorem chk_order_check_eq (files : List (Int × Int × Int)) (pos : List Int) (S T V : Nat) :
+    Py.chk_order_check files pos S T V =
+      if (List.range V).all (fun v => (List.range T).all fun t => (List.range S).all fun s =>
+          cellOk files pos S T v t s)
+      then .ok () else .error PyErr.invalidStack := by
+  unfold Py.chk_order_check
+  have inner : ∀ v t (st : Nat),
+      ((List.range S).all (fun s => cellOk files pos S T v t s) = true ∧ ∃ s', _ = Except.ok s') ∨
+      ((List.range S).all (fun s => cellOk files pos S T v t s) = false ∧ _ = Except.error PyErr.invalidStack) :=
+    fun v t st => forIn_guard PyErr.invalidStack (fun s => cellOk files pos S T v t s)
+      (fun (slice_idx __s : Nat) =>
+        have file_idx := v * T * S + t * S + slice_idx;
+        have file_info := files[file_idx]!;
+        have __do_jp := fun (__r : Unit) =>
+          if (file_info.snd.snd != pos[slice_idx]!) = true then do
+            throw PyErr.invalidStack
+            pure (ForInStep.yield file_idx)
+          else pure (ForInStep.yield file_idx);
+        if (file_info.fst != files[v * T * S]!.fst) = true then do
+          let __r ← throw PyErr.invalidStack
+          __do_jp __r
+        else __do_jp ())
+      (by
+        intro s st'
+        simp only [cellOk]
+        generalize files[v * T * S + t * S + s]! = fi
+        generalize files[v * T * S]! = f0
+        generalize pos[s]! = ps
+        by_cases h1 : fi.1 = f0.1 <;> by_cases h2 : fi.2.2 = ps <;>
+          simp [h1, h2, bind, Except.bind, throw, throwThe, MonadExceptOf.throw, pure, Except.pure])
+      (List.range S) st
+  have middle : ∀ v (st : Nat),
+      ((List.range T).all (fun t => (List.range S).all fun s => cellOk files pos S T v t s) = true ∧
+        ∃ s', _ = Except.ok s') ∨
+      ((List.range T).all (fun t => (List.range S).all fun s => cellOk files pos S T v t s) = false ∧
+        _ = Except.error PyErr.invalidStack) :=
+    fun v st => forIn_guard PyErr.invalidStack
+      (fun t => (List.range S).all fun s => cellOk files pos S T v t s)
+      (fun (time_idx __s : Nat) =>
+        have file_idx := __s;
+        do
+        let __s ←
+          forIn (List.range S) file_idx fun (slice_idx __s : Nat) =>
+              have file_idx := v * T * S + time_idx * S + slice_idx;
+              have file_info := files[file_idx]!;
+              have __do_jp := fun (__r : Unit) =>
+                if (file_info.snd.snd != pos[slice_idx]!) = true then do
+                  throw PyErr.invalidStack
+                  pure (ForInStep.yield file_idx)
+                else pure (ForInStep.yield file_idx);
+              if (file_info.fst != files[v * T * S]!.fst) = true then do
+                let __r ← throw PyErr.invalidStack
+                __do_jp __r
+              else __do_jp ()
+        have file_idx : Nat := __s
+        pure (ForInStep.yield file_idx))
+      (by
+        intro t st'
+        rcases inner v t st' with ⟨ha, s', h⟩ | ⟨ha, h⟩
+        · exact Or.inl ⟨ha, s', by simp only [h]; rfl⟩
+        · exact Or.inr ⟨ha, by simp only [h]; rfl⟩)
+      (List.range T) st
+  have outer := forIn_guard PyErr.invalidStack
+      (fun v => (List.range T).all fun t => (List.range S).all fun s => cellOk files pos S T v t s)
+      (fun (vec_idx : Nat) (__s : PUnit) =>
+        have file_idx := vec_idx * T * S;
+        have curr_vec_val := files[file_idx]!.fst;
+        do
+        let _ ←
+          forIn (List.range T) file_idx fun (time_idx __s : Nat) =>
+              have file_idx := __s;
+              do
+              let __s ←
+                forIn (List.range S) file_idx fun (slice_idx __s : Nat) =>
+                    have file_idx := vec_idx * T * S + time_idx * S + slice_idx;
+                    have file_info := files[file_idx]!;
+                    have __do_jp := fun (__r : Unit) =>
+                      if (file_info.snd.snd != pos[slice_idx]!) = true then do
+                        throw PyErr.invalidStack
+                        pure (ForInStep.yield file_idx)
+                      else pure (ForInStep.yield file_idx);
+                    if (file_info.fst != curr_vec_val) = true then do
+                      let __r ← throw PyErr.invalidStack
+                      __do_jp __r
+                    else __do_jp ()
+              have file_idx : Nat := __s
+              pure (ForInStep.yield file_idx)
+        pure (ForInStep.yield PUnit.unit))
+      (by
+        intro v u
+        rcases middle v (v * T * S) with ⟨ha, s', h⟩ | ⟨ha, h⟩
+        · exact Or.inl ⟨ha, PUnit.unit, by simp only [h]; rfl⟩
+        · exact Or.inr ⟨ha, by simp only [h]; rfl⟩)
+      (List.range V) PUnit.unit
+  rcases outer with ⟨ha, s', h⟩ | ⟨ha, h⟩
+  · rw [if_pos ha]
+    simp only [h]
+    rfl
+  · rw [if_neg (by simp [ha])]
+    simp only [h]
+    rfl
+
 end Src
